@@ -6,6 +6,11 @@
                      solvable false and returns Ok(false); Unsolvable is only constructed for the root run (shared with C02)
   soft-loop          solve() attempts each soft requirement only if it is still undecided at that moment, on the loop's own
                      element, after the hard problem has been solved; an Ok(false) result is ignored, an Err is propagated
+
+Added after the second and third seeding rounds:
+  backjump-cannot-go-below-starting-level  the decision loop is told the run's starting level, or run_sat compares the level it
+                     gets back with it - fails on the current tree: known finding D15
+  encoding / new-solvables / assertions / soft-solvables-registered  the C01 / C09 / C15 rules apply unchanged to soft runs
 """
 from common import *
 import q, enc, c02, c04
